@@ -199,6 +199,21 @@ class CallExit(Node):
         return o if o != NORMAL else self.body.run(s)
 
 
+EXIT = ("X",)
+
+
+class GuardExit(Node):
+    """pre..; if (true) exitWith { block }; dead - as the last statements of a guarded block (except__ / try): the guard clause
+    leaves the guarded block itself, so an error or throw inside the exitWith code meets a handler whose own scope is
+    already marked as left"""
+    def __init__(self, g, body): self.body, self.dead = body, Mark(g)
+    def blocks(self): return [self.body]
+    def ast(self): return [st(bi("exitWith", un("if", ("B", True)), code(self.body.ast())))] + self.dead.ast()
+    def run(self, s):
+        o = self.body.run(s)
+        return EXIT if o == NORMAL else o
+
+
 class Except(Node):
     def __init__(self, g, body, handler): self.id, self.body, self.handler = g.new_id(), body, handler
     def blocks(self): return [self.body, self.handler]
@@ -209,7 +224,7 @@ class Except(Node):
         s.live += 1
         o = self.body.run(s)
         s.live -= 1
-        if o == NORMAL: return NORMAL
+        if o == NORMAL or o == EXIT: return NORMAL
         s.out.append("[%d,false]" % self.id)      # the error is available in _exception
         return self.handler.run(s)
 
@@ -224,6 +239,7 @@ class Try(Node):
         s.live += 1
         o = self.body.run(s)
         s.live -= 1
+        if o == EXIT: return NORMAL
         if o[0] != "T": return o                   # a runtime error is not for try-catch
         s.out.append("[%d,%d]" % (self.id, o[1]))
         return self.handler.run(s)
@@ -347,12 +363,19 @@ class Gen:
         if k < 0.72:
             return CallExit(self, self.seq(d, "call", False, loopvars, 2), self.seq(d, "exitwith", False, loopvars, 2))
         if k < 0.84:
-            return Except(self, self.seq(d, "except.body", False, loopvars), self.seq(d, "except.handler", False, loopvars))
+            return Except(self, self.guarded(d, "except.body", loopvars), self.seq(d, "except.handler", False, loopvars))
         if k < 0.94:
-            return Try(self, self.seq(d, "try.body", False, loopvars), self.seq(d, "catch.handler", False, loopvars))
+            return Try(self, self.guarded(d, "try.body", loopvars), self.seq(d, "catch.handler", False, loopvars))
         if top:
             return Spawn(self.seq(d, "spawn", True, ()))
         return Mark(self)
+
+    def guarded(self, d, role, loopvars):
+        """the block of except__ / try; sometimes it ends in a guard clause (exitWith in the block's own scope)"""
+        b = self.seq(d, role, False, loopvars)
+        if self.rng.random() < 0.3:
+            b.nodes.append(GuardExit(self, self.seq(d, "guard", False, loopvars, 2)))
+        return b
 
     def all_seqs(self, seq, path, out, scheduled):
         p = path + "/" + seq.role
